@@ -338,3 +338,17 @@ package rag
 //@   callsite Encode(v) requires len(v) == len(chunks) && forall k int :: {v[k]} 0 <= k && k < len(chunks) ==> v[k] == e.prepareChunkForExport(chunks[k], k)
 //@   loop 0:
 //@     invariant len(exported) == len(chunks) && forall k int :: {exported[k]} 0 <= k && k < $i ==> exported[k] == e.prepareChunkForExport(chunks[k], k)
+
+// streaming: one record per call, the chunk's own record
+//@ func (*StreamExporter) WriteChunk results (err)
+//@   property C14
+//@   flags nosafety
+//@   callsite Encode(v) requires v == exporter.prepareChunkForExport(chunk, index)
+
+// vector-database records: one per chunk, in order, with the chunk's id and text
+//@ func (*EmbeddingExporter) PrepareForVectorDB results (records)
+//@   property C14
+//@   flags nosafety
+//@   ensures one_record_per_chunk_in_order: len(records) == len(chunks) && forall k int :: {records[k]} 0 <= k && k < len(chunks) ==> records[k].ID == chunks[k].ID && records[k].Text == chunks[k].Text
+//@   loop 0:
+//@     invariant len(records) == len(chunks) && forall k int :: {records[k]} 0 <= k && k < $i ==> records[k].ID == chunks[k].ID && records[k].Text == chunks[k].Text
